@@ -44,6 +44,10 @@ impl Tree {
     }
 }
 
+/// spellings of the grammar's variable `x`: names that mean something elsewhere in Gleam's surface (attribute and target
+/// names are ordinary identifiers) next to plain ones
+const VAR_SPELLINGS: &[&str] = &["x", "x", "internal", "deprecated", "target", "erlang", "javascript", "x_1", "main"];
+
 fn expected_tree(case: &Value) -> Vec<Tree> {
     let mut stack: Vec<(String, Vec<Tree>)> = vec![("ROOT".into(), vec![])];
     for t in case["out"].as_array().unwrap() {
@@ -56,7 +60,7 @@ fn expected_tree(case: &Value) -> Vec<Tree> {
             _ => {
                 let x = t["t"].as_str().unwrap();
                 let c = x.chars().next().unwrap_or(' ');
-                let class = if c == '"' { "\"s\"" } else if c.is_ascii_digit() { if x.contains('.') { "1.5" } else { "1" } } else { x };
+                let class = if c == '"' { "\"s\"" } else if c.is_ascii_digit() { if x.contains('.') { "1.5" } else { "1" } } else if VAR_SPELLINGS.contains(&x) { "x" } else { x };
                 stack.last_mut().unwrap().1.push(Tree::Tok(class.to_string()))
             }
         }
@@ -74,6 +78,8 @@ fn real_children(node: &SyntaxNode, out: &mut Vec<Tree>) {
                         SyntaxKind::INTEGER => "1".to_string(),
                         SyntaxKind::FLOAT => "1.5".to_string(),
                         SyntaxKind::STRING => "\"s\"".to_string(),
+                        // the variable `x` of the grammar stands for any spelling of its class (VAR_SPELLINGS)
+                        SyntaxKind::IDENT if VAR_SPELLINGS.contains(&t.text()) => "x".to_string(),
                         _ => t.text().to_string(),
                     }));
                 }
@@ -105,7 +111,16 @@ static SPELLINGS: std::sync::OnceLock<Value> = std::sync::OnceLock::new();
 
 fn render(case: &Value, mode: u8, rng: &mut Rng) -> String {
     let mut toks: Vec<&str> = case["out"].as_array().unwrap().iter().filter(|t| t["r"] == "tok").map(|t| t["t"].as_str().unwrap()).collect();
-    // the seeded layout also draws a member of each literal class (never for a tuple index `x.1`)
+    // the seeded layout also draws a member of each literal class (never for a tuple index `x.1`), and spells variables with
+    // names that mean something elsewhere in Gleam's surface (attribute and target names are ordinary identifiers)
+    let var_spelling = VAR_SPELLINGS[rng.below(VAR_SPELLINGS.len())];
+    if mode == 2 {
+        for t in toks.iter_mut() {
+            if *t == "x" {
+                *t = var_spelling;
+            }
+        }
+    }
     if mode == 2 {
         if let Some(sp) = SPELLINGS.get() {
             for i in 0..toks.len() {
@@ -128,9 +143,13 @@ fn render(case: &Value, mode: u8, rng: &mut Rng) -> String {
                 (punct(a) || punct(b)) && !(a == "." && b == ".") && !(a == ".." || b == "..") && !(a == "." && b.starts_with('.'))
                     && !(punct(a) && !punct(b) && a == "." && b.chars().next().map_or(false, |c| c.is_ascii_digit()) && false)
             };
+            // mode 3: operator-led lines - a line break in front of every operator, the operator glued to what follows
+            // (`a\n    -1`, `x\n    |>f`): where lines break never decides how an expression groups
+            let is_op = |x: &str| matches!(x, "+" | "-" | "*" | "/" | "%" | "<" | ">" | "<=" | ">=" | "==" | "!=" | "&&" | "||" | "<>" | "|>" | "+." | "-." | "*." | "/." | "<." | ">." | "<=." | ">=.");
             let sep = match mode {
                 0 => " ",
                 1 => if tight_ok(prev, t) { "" } else { " " },
+                3 => if is_op(t) { "\n    " } else if is_op(prev) && t.chars().next().map_or(false, |c| c.is_alphanumeric() || c == '_' || c == '"' || c == '(' || c == '[') { "" } else { " " },
                 _ => [" ", " ", "\n", "\n    ", "  // c é\n", "\t", " /// d\n"][rng.below(7)],
             };
             // doc comments are only trivia in front of items; keep them out of expressions
@@ -351,7 +370,7 @@ fn main() {
             for t in &exp { t.ser(&mut exp_s); }
             let mut local = vec![];
             let mut parses = 0u64;
-            let modes: Vec<u8> = match case["mode"].as_u64() { Some(m) => vec![m as u8], None => vec![0, 1, 2] };
+            let modes: Vec<u8> = match case["mode"].as_u64() { Some(m) => vec![m as u8], None => vec![0, 1, 2, 3] };
             for mode in modes {
                 let text = render(case, mode, &mut rng);
                 parses += 1;
